@@ -13,7 +13,7 @@ from pgpy import PGPKey, PGPMessage, PGPSignature
 
 warnings.simplefilter('ignore')
 
-FUNCTIONS_ENCODED = ['pgpy.types.Armorable.crc24', 'pgpy.types.Armorable.__str__ (wrap expression, constants)',
+FUNCTIONS_ENCODED = ['pgpy.types.Armorable.ascii_unarmor (native, concrete texts)', 'pgpy.types.Armorable.__str__', 'pgpy.types.Armorable.crc24', 'pgpy.types.Armorable.__str__ (wrap expression, constants)',
                      'pgpy.types.PGPObject.int_to_bytes', 'pgpy.pgp.PGPSignature.parse', 'pgpy.pgp.PGPMessage.parse',
                      'pgpy.pgp.PGPKey.parse', 'pgpy.pgp.PGPKey.magic', 'pgpy.pgp.PGPMessage.magic', 'pgpy.pgp.PGPSignature.magic']
 STUBS = ['Armorable.ascii_unarmor -> pre-split result with a symbolic block label (O10.4): the armor regular expression is not executed symbolically']
